@@ -535,7 +535,7 @@ pub fn run(ctx: &mut RunCtx) {
     ctx.explore(
         "aggregates",
         "0-13 rows (key, numeric-or-null v, any-or-null w) over 1-3 keys, grouped or global, 17 aggregate columns per query; non-trivial = >=2 groups, >=1 null v, and an integer partial-sum overflow or int+float mix",
-        ctx.tier.pick(320_000, 6_000_000),
+        ctx.tier.pick(320_000, 18_000_000),
         move || strategy(excl_temporal),
         check,
     );
